@@ -219,6 +219,7 @@ def h_loop(ctx, sizes, events, rtx, near):
             frame_of += [f] * len(Vp8Encoder._packetize(fr, 0))
         start_frame = None
         plis = 0
+        repair_lost = False  # a retransmission was dropped: the property's precondition no longer holds
         for step in range(events):
             opts = [("media", i) for i in range(min(len(wire), 4))]
             if r.transport.sent:
@@ -231,6 +232,8 @@ def h_loop(ctx, sizes, events, rtx, near):
                 d = wire[i]
                 if mode != "duplicate":
                     wire.pop(i)
+                if mode == "drop" and not any(m is d for m in media):
+                    repair_lost = True
                 if mode != "drop":
                     if start_frame is None:
                         # the stream starts, for the receiver, with the first packet it sees
@@ -295,7 +298,7 @@ def h_loop(ctx, sizes, events, rtx, near):
                 match = tail[0] if tail else idx
             idx = match
         ctx.check(len(got) <= len(frames), "no-frame-twice")
-        if plis == 0 and start_frame is not None:
+        if plis == 0 and start_frame is not None and not repair_lost:
             # every frame after the one the receiver first saw a packet of
             for j in range(start_frame + 1, len(frames)):
                 ctx.check(frames[j] in got, "every-later-frame-reaches-the-decoder-once-losses-are-repaired-and-traffic-continues", "frame %d" % j)
